@@ -1,5 +1,6 @@
 CONSTANT Level = 1
 SPECIFICATION Spec
 INVARIANT AlignedOK
+INVARIANT WideOK
 INVARIANT Export
 CHECK_DEADLOCK FALSE
